@@ -59,7 +59,7 @@ def module_descs(draw, with_apps=True, max_depth=3, sym_pool=('a', 'b', 'c', 'A'
             mname, i = draw(st.sampled_from(all_axioms))
             claims.append({'kind': 'axiom', 'module': mname, 'index': i})
         elif with_apps:
-            kind = draw(st.sampled_from(['app'] * 7 + ['univgen'] * 2 + ['quant'] * 2 + ['dyninst'] * 2 + ['appinst'] * 2 + (['taut'] if allow_taut else []))) if rich else 'app'
+            kind = draw(st.sampled_from(['app'] * 7 + ['univgen'] * 2 + ['quant'] * 2 + ['dyninst'] * 2 + ['appinst'] * 2 + ['funcsubst'] + (['taut'] if allow_taut else []))) if rich else 'app'
             if kind in ('app', 'univgen', 'appinst'):
                 app = S.draw_app(draw, cfg, depth=draw(st.integers(1, 2)), entries=S.light_catalogue(), arg_depth=1)
                 c = {'kind': kind, 'app': app.to_json()}
@@ -83,6 +83,26 @@ def module_descs(draw, with_apps=True, max_depth=3, sym_pool=('a', 'b', 'c', 'A'
                         delta.append([k, gens.sugared_to_json(val)])
                     c['delta'] = delta
                 claims.append(c)
+            elif kind == 'funcsubst':
+                # the Substitution library's functional_subst rule (premises: the two schematic hypotheses as axioms of the
+                # theory), optionally instantiated further: phi0 by a pattern in which x0 is not free, phi1 by any pattern
+                delta = []
+                for k in draw(st.lists(st.sampled_from([0, 1]), max_size=2, unique=True)):
+                    if k == 0:
+                        val = gens.draw_admissible_concrete(draw, R.MV(0, (0,), (), (), ()), cfg, 1) if draw(st.booleans()) else R.MV(draw(st.sampled_from(cfg.ids)), (0,), (), (), ())
+                    else:
+                        val = draw_axiom(draw, cfg, 1)
+                    delta.append([k, gens.sugared_to_json(val)])
+                # domain: capture-free instantiations whose result is documented-well-formed (as for 'quant' below)
+                _, _, defs = H.pool()
+                by_label = notations.registry()[1]
+                conc = R.ES(R.MV(1), 1, R.MV(0, (0,), (), (), ()))
+                try:
+                    res = R.instantiate(conc, {k: gens.expand_sugared(gens.sugared_from_json(v, by_label), defs) for k, v in delta}, mode='check')
+                    if R.well_formed(res):
+                        claims.append({'kind': 'funcsubst', 'delta': delta})
+                except R.Capture:
+                    pass
             elif kind == 'dyninst':
                 # a primitive schema instantiated through dynamic_inst with the keys in an arbitrary insertion order
                 schema = draw(st.sampled_from(['prop1', 'prop2', 'prop3']))
@@ -166,7 +186,7 @@ def build_module(desc):
     root = built.by_name[desc['name']]
     apps = [S.App.from_json(c['app']) for c in desc.get('claims', []) if c['kind'] in ('app', 'univgen', 'appinst')]
     prop = taut = None
-    if apps or any(c['kind'] in ('taut', 'quant', 'dyninst', 'pnc') for c in desc.get('claims', [])):
+    if apps or any(c['kind'] in ('taut', 'quant', 'dyninst', 'pnc', 'funcsubst') for c in desc.get('claims', [])):
         need_taut = any(c['kind'] == 'taut' for c in desc.get('claims', [])) or any(n in {e.name for e in S.catalogue() if e.module == 'taut'} for a in apps for n in a.entries())
         if need_taut:
             taut = root.import_module(Tautology()); prop = taut
@@ -175,6 +195,7 @@ def build_module(desc):
         root._verif_subs.append(prop)
         prop._verif_axioms = None
     claims, thunks = [], []
+    subst_lib = None
     it = iter(apps)
     for c in desc.get('claims', []):
         explicit = None
@@ -205,6 +226,22 @@ def build_module(desc):
             sub.prop = prop
             th = Substitution.universal_gen(sub, next(it).build(root, prop, taut), P.EVar(c['var']))
             th = _rebind(root, th)
+        elif c['kind'] == 'funcsubst':
+            import proof_generation.pattern as P
+            from proof_generation.proofs.definedness import equals
+            from proof_generation.proofs.substitution import Substitution, forall
+
+            if subst_lib is None:
+                subst_lib = root.import_module(Substitution())
+                root._verif_subs.append(subst_lib)
+                subst_lib._verif_subs = [subst_lib.prop]
+                subst_lib.prop._verif_subs = []
+            f0 = P.MetaVar(0, e_fresh=(P.EVar(0),))
+            a1 = P.Exists(0, equals(f0, P.EVar(0))); a2 = forall(1)(P.MetaVar(1))
+            root.add_axiom(a1); root.add_axiom(a2)
+            th = subst_lib.functional_subst(root.load_axiom(a1), root.load_axiom(a2))
+            if c['delta']:
+                th = root.dynamic_inst(th, {k: gens.build_repo(gens.sugared_from_json(v, by_label)) for k, v in c['delta']})
         elif c['kind'] == 'appinst':
             th = root.dynamic_inst(next(it).build(root, prop, taut), {k: gens.build_repo(gens.sugared_from_json(v, by_label)) for k, v in c['delta']})
         elif c['kind'] == 'dyninst':
